@@ -436,6 +436,20 @@ fn judge_reparse(entries: &[Entry], out: &str) -> Option<(String, String)> {
                 if !ok {
                     return Some(("reparse/entry-kind-changed".into(), format!("a {} entry reads back as a different kind of entry", kind)));
                 }
+                // a directive reads back with the same sub-directives (alias / note / comment / format lines, in order)
+                if matches!(*kind, "account" | "commodity") {
+                    if let Entry::Other { text, .. } = e {
+                        let src: Result<Vec<plain::LedgerEntry<'_>>, String> = parse_ledger::<plain::Ident>(&ParseOptions::default(), text).map(|r| r.map(|(_, e)| e).map_err(|e| e.to_string())).collect();
+                        match src {
+                            Ok(v) if v.len() == 1 => {
+                                if v[0] != *g {
+                                    return Some((format!("reparse/sub-directives-changed/{}", kind), format!("the {} directive reads back as {:?}, it was written as {:?}", kind, g, v[0])));
+                                }
+                            }
+                            other => panic!("harness bug: directive of the alphabet does not parse alone: {:?}", other),
+                        }
+                    }
+                }
             }
             _ => return Some(("reparse/entry-kind-changed".into(), "a transaction reads back as a different kind of entry".into())),
         }
@@ -502,7 +516,21 @@ fn judge(entries: &[Entry], out: &str) -> Outcome {
     for (e, b) in entries.iter().zip(blocks.iter()) {
         let (head_meta, posts) = match e {
             Entry::Txn { head_meta, posts, .. } => (head_meta, posts),
-            Entry::Other { .. } => continue,
+            Entry::Other { kind, text, .. } => {
+                // the lines under an `account` / `commodity` directive are indented by four blanks, one output line per source line
+                if matches!(*kind, "account" | "commodity") {
+                    if b.len() != text.lines().count() {
+                        return Outcome::violation(format!("directive-lines/count-changed/{}", kind), format!("the {} directive has {} lines, its formatted block has {}\n--- output ---\n{}", kind, text.lines().count(), b.len(), out));
+                    }
+                    for l in &b[1..] {
+                        let ind = l.len() - l.trim_start_matches(' ').len();
+                        if ind != 4 {
+                            return Outcome::violation(format!("directive-lines/indent-{}/{}", ind.min(9), kind), format!("line {:?} under the {} directive is indented by {} blanks, not 4\n--- output ---\n{}", l, kind, ind, out));
+                        }
+                    }
+                }
+                continue;
+            }
         };
         let mut post_lines: Vec<&str> = vec![];
         let mut meta_seen = 0usize;
@@ -674,6 +702,8 @@ fn structure_entries() -> Vec<Entry> {
         Entry::Other { kind: "comment", text: ";\n", first: ";" },
         Entry::Other { kind: "account", text: "account Assets:Cash\n alias C\n note n1\n ; c1\n", first: "account Assets:Cash" },
         Entry::Other { kind: "commodity", text: "commodity USD\n alias $\n format 1,000.00 USD\n", first: "commodity USD" },
+        Entry::Other { kind: "account", text: "account Assets:Bank\n note main account\n note opened in 2020\n alias B\n ; c1\n ; c2\n", first: "account Assets:Bank" },
+        Entry::Other { kind: "commodity", text: "commodity EUR\n note n1  \n note n2\n ; c\n ; d\n alias E\n", first: "commodity EUR" },
         Entry::Other { kind: "apply", text: "apply tag foo: bar\n", first: "apply tag foo" },
         Entry::Other { kind: "end", text: "end apply tag\n", first: "end apply tag" },
         Entry::Other { kind: "include", text: "include other.ledger\n", first: "include other.ledger" },
